@@ -210,6 +210,58 @@ def run(F, chk):
             miss = [n for n, g in (("the gathered error count", g_err), ("timed_out", g_to or tname in no_deadline)) if not g]
             rc.violation(key + "|missing " + "+".join(m.split()[-1] for m in miss), b.where(oks[0][0]),
                          "%s answers OK on a path that never tests %s" % (tname, " nor ".join(miss)))
+    # path-sensitive half: no path that took an `errors > 0` / `timed_out` edge reaches a success answer
+    for ip in impls:
+        b = F.body(ip)
+        tname = ip.split(" as ")[0].split("::")[-1]
+        if tname in EXEMPT:
+            continue
+        to_locals = set(b.named_local("timed_out")) | set(b.named_local("_timed_out"))
+        edge_delta = {}
+        for sb, f, t, atom in guards.bool_switches(b):
+            if f == t:
+                continue
+            if atom[0] == "cmp":
+                for tgt in (f, t):
+                    rel = lib.relation_on_edge(b, sb, tgt)
+                    if not rel:
+                        continue
+                    op, sa, sbb, _ = rel
+                    a_err = any(fl in ("errors", "failures") for _, fl in sa["fields"])
+                    b_err = any(fl in ("errors", "failures") for _, fl in sbb["fields"])
+                    zero_b = any(str(c).startswith("0_") for c in sbb["consts"])
+                    zero_a = any(str(c).startswith("0_") for c in sa["consts"])
+                    if (a_err and zero_b and op in ("Gt", "Ne")) or (b_err and zero_a and op in ("Lt", "Ne")):
+                        edge_delta[(sb, tgt)] = (0, 1, 0)
+            elif atom[0] in ("place", "multi"):
+                l = pl_local(atom[1]) if atom[0] == "place" else atom[1]
+                sl = b.slice_back([l])
+                if (sl["params"] | sl["locals"]) & to_locals and not sl["callees"]:
+                    edge_delta[(sb, t)] = (0, 0, 1)
+
+        class OS(Spec):
+            nvec = 3
+
+            def event(self, eng, body, bi, t, argv, val):
+                if t.get("fn") in FIN_OK and body.path == b.path:
+                    return [((1, 0, 0), None)]
+                return None
+
+            def edge_event(self, eng, body, bi, nb):
+                if body.path == b.path:
+                    return edge_delta.get((bi, nb))
+                return None
+        oe = Engine(F, OS())
+        res = oe.explore(b, None)
+        bad = sorted({v for v, _ in res if v[0] >= 1 and (v[1] >= 1 or (v[2] >= 1 and tname not in no_deadline))})
+        key = "on_finish %s|finish_ok after failure edge" % tname
+        if not edge_delta:
+            rc.info(key, b.where(), "no branch on the error tally / timed_out in this task (see the structural check above)")
+        elif bad:
+            rc.violation(key, b.where(), "%s can answer OK on a path that took %s: (ok answers, error edges, timeout edges) = %s"
+                         % (tname, " / ".join(x for x, k in (("an `errors > 0` edge", 1), ("a `timed_out` edge", 2)) if any(v[k] for v in bad)), bad))
+        else:
+            rc.ok(key, b.where(), "no path through an errors>0 / timed_out edge reaches finish_ok* (%d guard edges, %d path classes)" % (len(edge_delta), len(res)))
     # ---------------- R-C09-f every gathering task has a deadline --------------
     rf = chk.rule("R-C09-f", "T12", "every gathering task is registered with a finite timeout (a silent worker cannot hang the client forever)", floor=8)
     for name in TASK:
